@@ -135,6 +135,18 @@ def run(repo):
                              '%s must be carried over unchanged as a prefix' % (p, pr, p),
                              repo.where(fi), P))
     xm = env.get('xmat')
+    if isinstance(xm, ast.Name):
+        # a local: its definitions, and nothing may be put into it
+        xdefs = [n.value for n in walk_no_nested(fi.node) if isinstance(n, ast.Assign) and
+                 any(isinstance(t, ast.Name) and t.id == xm.id for t in n.targets)]
+        grown = [n for n in walk_no_nested(fi.node)
+                 if (isinstance(n, ast.Call) and isinstance(n.func, ast.Attribute) and ntext(n.func.value) == xm.id and
+                     n.func.attr in ('append', 'extend', 'insert'))
+                 or (isinstance(n, ast.AugAssign) and ntext(n.target) == xm.id)]
+        if len(xdefs) == 1 and not grown:
+            xm = xdefs[0]
+        elif not grown and xdefs and all(isinstance(d, (ast.List, ast.Tuple)) and not d.elts for d in xdefs):
+            xm = xdefs[0]
     ok = (isinstance(xm, (ast.List, ast.Tuple)) and not xm.elts) or \
         (isinstance(xm, ast.Call) and call_name(xm) in ('list', 'tuple') and not xm.args and not xm.keywords)
     res.inst({'field': 'xmat', 'value': ntext(xm) if xm is not None else None, 'ok': ok}, ok)
@@ -150,7 +162,10 @@ def run(repo):
         res.fail(Finding(RULE, fi.fq, 'field lmi', 'to_socp must pass self.lmi through unchanged',
                          repo.where(fi), P))
     # every exp cone is consumed: the loop over self.xmat exists
-    loops = [n for n in walk_no_nested(fi.node) if isinstance(n, ast.For) and is_self_attr(n.iter, 'xmat')]
+    loops = [n for n in walk_no_nested(fi.node) if isinstance(n, ast.For) and
+             (is_self_attr(n.iter, 'xmat') or
+              (isinstance(n.iter, ast.Call) and call_name(n.iter) in ('enumerate', 'zip', 'reversed', 'list', 'tuple') and
+               any(is_self_attr(a, 'xmat') for a in n.iter.args)))]
     ok = len(loops) == 1
     res.inst({'loop': 'for xm in self.xmat', 'ok': ok}, ok)
     if not ok:
